@@ -18,12 +18,19 @@ META = {
             "contents, file modes exactly, directory modes under the umask) and touches nothing else.  The model is "
             "tied to the code by differential runs inside a chroot sandbox (result and the whole file system before/"
             "after compared inside Coq), exhaustive small-string runs of filepath.Join/Rel/Dir, and a translator "
-            "obligation on the call skeleton of both extractors.",
+            "obligation on the call skeleton of both extractors.  Round 3: ANY sequence of zip/tar extractions into one "
+            "destination is confined; TarZipFile followed by the tar extractor is confined and, without a directory "
+            "prefix, reproduces ZipDir's tree; under umask 0 the zip round trip gives the tree itself; the exported "
+            "Cont.CopyOut / CopyOutFile and writeFirstFileAs are tied to the modelled extractors by decidable obligations "
+            "on their regenerated call skeletons; the harness also drives OpenInTemp, the exported dock entry points over "
+            "a scripted daemon, sequences of calls, every destination spelling with clear, contents around the copy "
+            "buffers and producer-side errors.",
     "note": "Trusted: Coq kernel + vm_compute; translator gen/arch.go; harness (chroot sandbox) and dock/verif_export.go "
             "shim; archive/zip and archive/tar byte formats and their readers' views (names, modes) are taken as "
             "reported; GODEBUG zipinsecurepath/tarinsecurepath at the module defaults; no symbolic links inside the "
             "destination; the process runs as root (permission-denied behaviour of read-only directories is not "
-            "observable); no axioms.",
+            "observable; the unreadable-directory case runs as uid 65534); the tar round trip with a directory prefix "
+            "is stated, not proved (stmt_tar_roundtrip_prefixed); no axioms.",
     "technique": "Coq proof (frame lemmas per file-system operation, induction over the entry list) + vm_compute "
                  "correspondence on sandboxed extractions + go/ast call skeleton",
 }
